@@ -11,13 +11,15 @@ for d in sorted(glob.glob('/verif/seeded/*')):
     ok_suite='66 passed' in (c.get('existing_suite_with_change') or '')
     ok_mut='FAILED' in (c.get('demo_with_change') or '')
     caught = k.get('exit')==1
+    neutral = j.get('neutralised_by_fix')
     rows.append((os.path.basename(d), j.get('property'), (j.get('summary') or '').replace('\n',' ')[:160], (j.get('needs_to_manifest') or '').replace('\n',' ')[:200],
-                 'yes' if (ok_clean and ok_suite and ok_mut) else 'NO (%s/%s/%s)'%(ok_clean,ok_suite,ok_mut), 'CAUGHT' if caught else 'missed (exit %s)'%k.get('exit'), (k.get('first_signatures') or '').replace('signature=','').strip()[:140], j.get('notes','')))
+                 'yes' if (ok_clean and ok_suite and ok_mut) else 'NO (%s/%s/%s)'%(ok_clean,ok_suite,ok_mut), ('no longer breaks the property (fix %s)'%neutral) if neutral else ('CAUGHT' if caught else 'missed (exit %s)'%k.get('exit')), (k.get('first_signatures') or '').replace('signature=','').strip()[:140], j.get('notes','')))
 out=["# Sensitivity: independently seeded breaking changes versus the checks","",
 "Each change was written by a sub-agent that saw only the property text and its own scratch worktree; it compiles, passes the 66 existing tests, and its demonstration fails with the change and passes without it (column *confirmed*, re-run by `tools/confirm_mutant.sh`). *check* = result of the property's quick check with the change applied to /repo.","",
 "| id | property | change | needs to manifest | confirmed | check | first signatures | notes |","|---|---|---|---|---|---|---|---|"]
 for r in rows: out.append("| "+" | ".join(str(x) for x in r)+" |")
 caught=sum(1 for r in rows if r[5]=='CAUGHT')
-out += ["", "%d of %d seeded changes are caught by the quick tier of their property."%(caught,len(rows)), ""]
+live=[r for r in rows if not r[5].startswith('no longer')]
+out += ["", "%d of %d seeded changes are caught by the quick tier of their property (%d further stored change(s) stopped breaking their property when a later fix: commit repaired the code they relied on; see their notes)."%(caught,len(live),len(rows)-len(live)), ""]
 open('/verif/SENSITIVITY.md','w').write("\n".join(out))
-print("%d/%d caught"%(caught,len(rows)))
+print("%d/%d caught"%(caught,len(live)))
